@@ -172,6 +172,7 @@ type TFact struct {
 }
 
 type absint struct {
+	ioOK map[*ssa.Function]int // module implementations of Read/ReadFrom/Write…: 1 keeps n ≤ len(buf), 2 does not
 	diffBusy      bool
 	nnBusy        map[*ssa.Function]bool
 	linBusy       bool
@@ -1382,7 +1383,7 @@ func (a *absint) proveLEd(x, y Term, at ssa.Instruction, depth int) (bool, strin
 	// library contract: the byte count of Read/ReadFrom/Write is ≤ len of its buffer
 	if !x.Len && y.Len {
 		if ex, ok := stripIntConv(x.V).(*ssa.Extract); ok && ex.Index == 0 {
-			if call, ok := ex.Tuple.(*ssa.Call); ok && ioCountCall(call) {
+			if call, ok := ex.Tuple.(*ssa.Call); ok && ioCountCall(call) && a.ioContractHolds(call) {
 				if buf := ioBuffer(call); buf != nil && a.sameTerm(Term{V: buf}, Term{V: y.V}) {
 					return true, "io contract: n ≤ len(buffer)"
 				}
@@ -1729,6 +1730,69 @@ func (a *absint) provePhiLenEdges(x, y Term, depth int) (bool, string) {
 		return false, ""
 	}
 	return true, "holds for the length of the operand of every incoming edge of the phi"
+}
+
+// ioContractHolds: the byte-count contract n ≤ len(buf) may be assumed for this call: a
+// library implementation keeps it by specification; an implementation inside the module that
+// the call can reach (interface call resolved through the call graph) must be shown to keep it
+// — STUNConn.ReadFrom, for one, returns the size of the frame even when the caller's buffer
+// is shorter, so a reader that may be handed a STUNConn has to compare n with its buffer.
+func (a *absint) ioContractHolds(call *ssa.Call) bool {
+	if a.ioOK == nil {
+		a.ioOK = map[*ssa.Function]int{}
+	}
+	var callees []*ssa.Function
+	if h := call.Call.StaticCallee(); h != nil {
+		callees = append(callees, h)
+	} else if n := a.w.CG.Nodes[call.Parent()]; n != nil {
+		for _, e := range n.Out {
+			if e.Site == ssa.CallInstruction(call) {
+				callees = append(callees, e.Callee.Func)
+			}
+		}
+	}
+	for _, h := range callees {
+		if !a.w.IsMod[h] || len(h.Blocks) == 0 {
+			continue
+		}
+		switch a.ioOK[h] {
+		case 1:
+			continue
+		case 2:
+			return false
+		}
+		a.ioOK[h] = 2 // recursion: not assumed
+		ok := true
+		var bufP *ssa.Parameter
+		for _, p := range h.Params {
+			if sl, isSl := p.Type().Underlying().(*types.Slice); isSl {
+				if b, isB := sl.Elem().Underlying().(*types.Basic); isB && b.Kind() == types.Uint8 {
+					bufP = p
+					break
+				}
+			}
+		}
+		if bufP == nil {
+			ok = false
+		} else {
+			for _, r := range returnsOf(h) {
+				if len(r.Results) == 0 {
+					ok = false
+					break
+				}
+				if le, _ := a.proveLE(termOf(a.w.resolveLoad(r.Results[0])), Term{V: bufP, Len: true}, r); !le {
+					ok = false
+					break
+				}
+			}
+		}
+		if ok {
+			a.ioOK[h] = 1
+		} else {
+			return false
+		}
+	}
+	return true
 }
 
 // ioCountCall: Read/ReadFrom/Write/WriteTo/ReadFull-style calls whose first result is a byte
